@@ -89,3 +89,19 @@ Lemma ex_prog_ok :
   obs_model (run_model 40 ex_prog) =
     Some (EExit, 7, rev [EMark 3; EMark 3; EMark 1; EProbe 4; EMark 7; EProbe 0; EMark 9]).
 Proof. split; [reflexivity|]. split; vm_compute; reflexivity. Qed.
+
+(** C03, extended fragment: a brace group that carries a redirection and fails quietly does not end
+    the shell; an assignment whose command substitution fails does, although [$?] was already 1:
+
+    set -e; { false && true; } 2>/dev/null; echo m1; false || v=$(false); echo m2 *)
+Definition ex_redir_assign : program :=
+  [[one (Leaf (LSet OErrexit true));
+    one (Redir RErrNull (Brace [((false, [ff]), [(true, (false, [tt]))])])); mark 1;
+    ((false, [ff]), [(false, (false, [Leaf (LAssign (Some 1))]))]); mark 2]].
+Lemma ex_redir_assign_ok :
+  well_scoped ex_redir_assign /\ ghost_free (run_model 20 ex_redir_assign) /\
+  obs_model (run_model 20 ex_redir_assign) = Some (EExit, 1, [EMark 1]) /\
+  obs_spec (run_spec 20 ex_redir_assign) = Some (EExit, 1, [EMark 1]).
+Proof.
+  split; [reflexivity|]. split; [vm_compute; reflexivity|]. split; vm_compute; reflexivity.
+Qed.
